@@ -84,3 +84,92 @@ def live_fact(fn, names=('expires_at',)):
 
 def rx(p):
     return re.compile(p)
+
+
+# ---- small structural helpers shared by the later property modules -------------------------------
+def declref(fn, n, d=None):
+    """n (stripped) is a reference to local/param decl d (any decl when d is None) -> decl id or None."""
+    if n is None:
+        return None
+    nd = fn.nodes[fn.strip(n)]
+    if nd['k'] == 'DeclRefExpr' and (d is None or nd.get('d') == d):
+        return nd.get('d')
+    return None
+
+
+def member_on(fn, n, field, base_d=None):
+    """n (stripped) is `<base>.field` (qualified field name or suffix) with base a reference to base_d."""
+    if n is None:
+        return False
+    m = fn.strip(n)
+    nd = fn.nodes[m]
+    if nd['k'] != 'MemberExpr' or not (nd.get('m') == field or nd.get('m', '').endswith('::' + field)):
+        return False
+    if base_d is None:
+        return True
+    ks = fn.kids(m)
+    return bool(ks) and declref(fn, ks[0], base_d) is not None
+
+
+def assignments(fn):
+    """[(lhs node, rhs node, site)] for every built-in or overloaded `lhs = rhs` in fn."""
+    out = []
+    for i in fn.walk():
+        nd = fn.nodes[i]
+        if nd['k'] == 'BinaryOperator' and nd.get('op') == '=':
+            l, r = fn.kids(i)
+            out.append((l, r, i))
+        elif nd['k'] == 'CXXOperatorCallExpr' and nd.get('op') == '=' and len(fn.kids(i)) == 3:
+            out.append((fn.kids(i)[1], fn.kids(i)[2], i))
+    return out
+
+
+def field_assigns(fn, d):
+    """{field qualified name: [(rhs, site)]} for assignments `x.field = rhs` with x the local d."""
+    out = {}
+    for l, r, s in assignments(fn):
+        m = fn.strip(l, casts=False)
+        nd = fn.nodes[m]
+        if nd['k'] == 'MemberExpr' and nd.get('mk') == 'Field' and fn.kids(m) and declref(fn, fn.kids(m)[0], d) is not None:
+            out.setdefault(nd['m'], []).append((r, s))
+    return out
+
+
+def share_copy_source(fn, out_d, field_pairs):
+    """The vector local `out_d` is filled only by push_back(tmp) inside one range-for whose body
+    assigns tmp.<dst> = elem.<src> for every (dst, src) in field_pairs (and nothing else to tmp).
+    Returns the range expression node of that loop (the source container), else None."""
+    from sa.paths import local_writes
+    pushes = [w for w in local_writes(fn, out_d)
+              if fn.nodes[w]['k'] == 'CXXMemberCallExpr' and fn.nodes[w].get('callee', '').endswith('::push_back')]
+    others = [w for w in local_writes(fn, out_d)
+              if not (fn.nodes[w]['k'] == 'CXXMemberCallExpr' and fn.nodes[w].get('callee', '').split('::')[-1] in ('push_back', 'reserve'))]
+    if len(pushes) != 1 or others:
+        return None
+    push = pushes[0]
+    loop = None
+    for a in fn.ancestors(push):
+        if fn.nodes[a]['k'] == 'CXXForRangeStmt':
+            loop = a
+            break
+        if fn.nodes[a]['k'] in ('ForStmt', 'WhileStmt', 'DoStmt', 'IfStmt', 'ConditionalOperator'):
+            return None           # conditional or counted filling is a different shape
+    if loop is None:
+        return None
+    var = fn.nodes[loop].get('var')
+    if var is None:
+        return None
+    elem_d = fn.nodes[var]['d']
+    tmp = declref(fn, fn.call_args(push)[0])
+    if tmp is None:
+        return None
+    fa = field_assigns(fn, tmp)
+    want = {dst: src for dst, src in field_pairs}
+    if set(fa) != set(want):
+        return None
+    for dst, lst in fa.items():
+        if len(lst) != 1 or not member_on(fn, lst[0][0], want[dst], elem_d):
+            return None
+        if not fn.is_in(lst[0][1], loop):
+            return None
+    return fn.nodes[loop].get('range')
